@@ -365,7 +365,14 @@ type c15Put struct{ kind, seed, n int }
 // c15Watchdog runs one case with a deadline: a reader of the code under test that returns (0, nil)
 // for ever makes io.ReadFull inside the middlewares spin; that is reported as a failing case
 // instead of hanging the whole run (the spinning goroutine and its pooled resources are abandoned).
+var c15HangSeen atomic.Bool
+
 func c15Watchdog(d time.Duration, f func() Result) Result {
+	// the deadline must never fire on a slow, loaded machine: the first hang of a run is only declared
+	// after 15 minutes; once one has been confirmed the remaining cases get the short deadline d
+	if !c15HangSeen.Load() {
+		d = 15 * time.Minute
+	}
 	ch := make(chan Result, 1)
 	go func() {
 		defer func() {
@@ -379,12 +386,13 @@ func c15Watchdog(d time.Duration, f func() Result) Result {
 	case r := <-ch:
 		return r
 	case <-time.After(d):
+		c15HangSeen.Store(true)
 		return Result{Out: "HANG", Oracle: "FAIL:the operation sequence did not terminate within " + d.String(), Tags: []string{"hang"}}
 	}
 }
 
 func (c15) Run(in string, scratch string) Result {
-	return c15Watchdog(90*time.Second, func() Result { return c15Run(in, scratch) })
+	return c15Watchdog(2*time.Minute, func() Result { return c15Run(in, scratch) })
 }
 
 func c15Run(in string, scratch string) Result {
